@@ -1,8 +1,12 @@
 /-
 C20 — cov tabulates exact k-mer multiplicities and labels the cutoff it defines.
-First theorems (cutoff rule); counting and the gradient identity are being added.
+Cutoff rule (`T20_cutoff`, `T20_labels`), histogram (`T20_histogram`), truncation
+(`T20_truncate`), exact multiplicities (`T20_count`) and the link of the counted keys to
+the window specification (`T20_readKeys`). The gradient identity over ℝ is in `C20Real.lean`.
+This file is Mathlib-free.
 -/
 import SkaModel.Impl.Coverage
+import SkaModel.Props.C01Dict
 
 namespace SkaModel.Props.C20
 
@@ -58,5 +62,172 @@ theorem T20_labels (cutoff c : Nat) : isError cutoff c = true ↔ c < cutoff := 
 
 example : findCutoff (fun c => decide (c ≥ 7)) 30 = 7 := by decide
 example : findCutoff (fun _ => false) 12 = 12 := by decide
+
+
+/-! ### histogram -/
+
+/-- **Histogram.** The table has exactly 1000 rows and row `c` (1-based, `1 ≤ c ≤ 1000`) is the
+number of k-mers with multiplicity exactly `c`; multiplicities above 1000 are not tabulated. -/
+theorem T20_histogram (mults : List Nat) :
+    (histogram mults).length = 1000 ∧
+    ∀ c, 1 ≤ c → c ≤ 1000 →
+      (histogram mults)[c - 1]? = some ((mults.filter (· == c)).length) := by
+  refine ⟨by simp [histogram, MAX_COUNT], ?_⟩
+  intro c h1 h2
+  have hlt : c - 1 < 1000 := by omega
+  have hc : c - 1 + 1 = c := by omega
+  simp [histogram, MAX_COUNT, List.getElem?_map, List.getElem?_range hlt, hc]
+
+/-! ### truncation -/
+
+/-- `counts` = kept prefix ++ dropped tail, the tail being the longest all-`< 50` suffix -/
+theorem truncate_split (counts : List Nat) :
+    counts = truncate counts ++ (counts.reverse.takeWhile (· < MIN_FREQ)).reverse := by
+  unfold truncate
+  rw [← List.reverse_append, List.takeWhile_append_dropWhile, List.reverse_reverse]
+
+theorem truncate_dropped (counts : List Nat) :
+    ∀ x ∈ counts.drop (truncate counts).length, x < 50 := by
+  intro x hx
+  have hs := truncate_split counts
+  have hd : counts.drop (truncate counts).length
+      = (counts.reverse.takeWhile (· < MIN_FREQ)).reverse := by
+    conv => lhs; arg 2; rw [hs]
+    exact List.drop_left
+  rw [hd, List.mem_reverse] at hx
+  have hall := List.all_takeWhile (p := (· < MIN_FREQ)) (l := counts.reverse)
+  rw [List.all_eq_true] at hall
+  exact of_decide_eq_true (hall x hx)
+
+theorem truncate_last (counts : List Nat) (h : truncate counts ≠ []) :
+    50 ≤ (truncate counts).getLast h := by
+  unfold truncate at h ⊢
+  rw [List.getLast_reverse]
+  have := List.head_dropWhile_not (· < MIN_FREQ) (l := counts.reverse) (by simpa using h)
+  rw [decide_eq_false_iff_not] at this
+  simp only [MIN_FREQ] at this ⊢
+  omega
+
+/-- **Truncation.** `truncate counts` is a prefix of `counts`; if non-empty it ends in an entry
+`≥ 50`; every dropped entry is `< 50`; and its length is the largest `n ≤ counts.length` with
+`n = 0 ∨ counts[n-1] ≥ 50` — the table ends at the last multiplicity shared by ≥ 50 k-mers. -/
+theorem T20_truncate (counts : List Nat) :
+    truncate counts <+: counts
+    ∧ (∀ h : truncate counts ≠ [], 50 ≤ (truncate counts).getLast h)
+    ∧ (∀ x ∈ counts.drop (truncate counts).length, x < 50)
+    ∧ (truncate counts).length ≤ counts.length
+    ∧ ((truncate counts).length = 0
+        ∨ 50 ≤ counts[(truncate counts).length - 1]?.getD 0)
+    ∧ (∀ n, n ≤ counts.length → (n = 0 ∨ 50 ≤ counts[n - 1]?.getD 0) →
+        n ≤ (truncate counts).length) := by
+  have hpre : truncate counts <+: counts := ⟨_, (truncate_split counts).symm⟩
+  have hlen : (truncate counts).length ≤ counts.length := hpre.length_le
+  refine ⟨hpre, truncate_last counts, truncate_dropped counts, hlen, ?_, ?_⟩
+  · by_cases h0 : (truncate counts).length = 0
+    · exact Or.inl h0
+    · right
+      have hne : truncate counts ≠ [] := by
+        intro h; rw [h] at h0; exact h0 rfl
+      have hl := truncate_last counts hne
+      rw [List.getLast_eq_getElem] at hl
+      have hlt : (truncate counts).length - 1 < (truncate counts).length := by omega
+      have hlt' : (truncate counts).length - 1 < counts.length := by omega
+      rw [List.getElem?_eq_getElem hlt', Option.getD_some, ← hpre.getElem hlt]
+      exact hl
+  · intro n hn hcond
+    rcases hcond with h | h
+    · omega
+    · apply Classical.byContradiction
+      intro hgt
+      have hgt : (truncate counts).length < n := by omega
+      have hn1 : n - 1 < counts.length := by omega
+      have hmem : counts[n - 1] ∈ counts.drop (truncate counts).length := by
+        rw [List.mem_drop_iff_getElem]
+        refine ⟨n - 1 - (truncate counts).length, by omega, ?_⟩
+        congr 1; omega
+      have hlt := truncate_dropped counts _ hmem
+      rw [List.getElem?_eq_getElem hn1] at h
+      simp only [Option.getD_some] at h
+      omega
+
+/-! ### counting -/
+
+/-- one step of `kmer_dict`: `*dict.entry(key).or_insert(0) += 1` -/
+abbrev bump (d : Std.HashMap Nat Nat) (key : Nat) : Std.HashMap Nat Nat :=
+  d.insert key (d.getD key 0 + 1)
+
+/-- counting fold: each key's stored value grows by its number of occurrences in `keys` -/
+theorem foldl_bump_getD (keys : List Nat) (d : Std.HashMap Nat Nat) (key : Nat) :
+    (keys.foldl bump d).getD key 0 = d.getD key 0 + (keys.filter (· == key)).length := by
+  induction keys generalizing d with
+  | nil => simp
+  | cons x xs ih =>
+    rw [List.foldl_cons, ih, List.filter_cons]
+    unfold bump
+    rw [Std.HashMap.getD_insert]
+    by_cases hx : x = key
+    · subst hx; simp; omega
+    · have : (x == key) = false := by simpa using hx
+      simp [this]
+
+/-- counting fold: the key set grows by exactly the keys of `keys` -/
+theorem foldl_bump_mem (keys : List Nat) (d : Std.HashMap Nat Nat) (key : Nat) :
+    key ∈ keys.foldl bump d ↔ key ∈ d ∨ key ∈ keys := by
+  induction keys generalizing d with
+  | nil => simp
+  | cons x xs ih =>
+    rw [List.foldl_cons, ih]
+    unfold bump
+    rw [Std.HashMap.mem_insert, List.mem_cons]
+    simp only [beq_iff_eq]
+    constructor
+    · rintro ((h | h) | h)
+      · exact Or.inr (Or.inl h.symm)
+      · exact Or.inl h
+      · exact Or.inr (Or.inr h)
+    · rintro (h | h | h)
+      · exact Or.inl (Or.inr h)
+      · exact Or.inl (Or.inl h.symm)
+      · exact Or.inr h
+
+/-- `kmer_dict` is one counting fold over all windows of all reads -/
+theorem kmerDict_eq (W k : Nat) (rc : Bool) (reads : List (Array UInt8)) :
+    kmerDict W k rc reads = (reads.flatMap (readKeys W k rc)).foldl bump {} := by
+  unfold kmerDict
+  rw [List.foldl_flatMap]
+
+/-- **Exact multiplicities.** The value stored for `key` (0 if absent) is the number of windows,
+over all reads of both files, whose split-k-mer key is `key`; and a key is present iff it occurs. -/
+theorem T20_count (W k : Nat) (rc : Bool) (reads : List (Array UInt8)) (key : Nat) :
+    (kmerDict W k rc reads).getD key 0
+        = ((reads.flatMap (readKeys W k rc)).filter (· == key)).length
+    ∧ (key ∈ kmerDict W k rc reads ↔ key ∈ reads.flatMap (readKeys W k rc)) := by
+  rw [kmerDict_eq]
+  constructor
+  · rw [foldl_bump_getD]; simp
+  · rw [foldl_bump_mem]; simp
+
+/-- **Counted keys = specification windows.** For a supported `k` and width, the keys counted for
+a read are the canonical arm keys of the specification's valid windows, in order. -/
+theorem T20_readKeys (W k : Nat) (rc : Bool) (hk : Props.C16.ValidK k) (hw : Props.C16.WidthOk W k)
+    (r : Array UInt8) :
+    readKeys W k rc r = (Spec.windows k r).map (fun j => (Spec.obs k rc r j).1) := by
+  have h := Props.C01.T01_iter W k rc hk hw r
+  simp only at h
+  have h2 := congrArg (List.map (fun t : (Nat × Nat × Bool) × Nat × Bool => t.1.1)) h
+  rw [List.map_map, List.map_map] at h2
+  exact h2
+
+
+/-! ### non-vacuity -/
+
+example : truncate [60, 10, 70, 3, 49] = [60, 10, 70] := by decide
+example : truncate [1, 2, 3] = [] := by decide
+example : (histogram [1, 1, 3, 1001])[0]? = some 2 := by
+  rw [(T20_histogram _).2 1 (by omega) (by omega)]; rfl
+example : (({} : Std.HashMap Nat Nat) |> [5, 7, 5].foldl bump).getD 5 0 = 2 := by
+  rw [foldl_bump_getD]; simp
+example : C16.ValidK 31 ∧ C16.WidthOk 64 31 := by
+  unfold C16.ValidK C16.WidthOk; omega
 
 end SkaModel.Props.C20
